@@ -286,11 +286,15 @@ def wd_kind(wd, index, p, fine=False):
         return "dir[%s]" % "+".join(kinds or ["empty"])
     e = wm.wd_lookup(wd, p)
     if e is None:
+        for q in wm.prefixes(p):
+            if isinstance(wd.get(q), tuple) and wd[q][0] in ("l", "f"):
+                return "beyond-symlink" if wd[q][0] == "l" else "beyond-file"
         return "absent"
     if e == "dir":
         return "dir"
     if e[0] == "l":
-        return "symlink(%s)" % link_class(wd, index, p, e[1]) if fine else "symlink"
+        lc = link_class(wd, index, p, e[1])
+        return "symlink(%s)" % lc if fine else "symlink-to-directory" if lc == "to-dir" else "symlink"
     if e[0] == "f":
         return ("exec" if e[2] else "file") if fine else "file"
     return "special"
@@ -941,7 +945,10 @@ def run_edits(acc, sid, ops, use_git, judge_last=True, expect_key=None):
                     raise HarnessError("divergence while replaying a prefix: %s raised %r" % (desc, e))
                 acc.count("transitions")
                 acc.outcome("op:%s:raised:%s" % (k, type(e).__name__))
-                acc.violation("op:%s:raises:%s" % (OP_API[k], raised(e)), "%s: %r" % (desc, e), rpl)
+                refused = ""
+                if type(e).__name__ in ("Error", "CheckoutError") and len(op) > 1:
+                    refused = ":path-is-%s" % wd_kind(st.wd, st.index, op[1])  # a refusal: the reason is in the state, not in the site
+                acc.violation("op:%s:raises:%s%s" % (OP_API[k], raised(e), refused), "%s: %r" % (desc, e), rpl)
                 return None
             wd = wm.walk(box.rootb)
             if is_index_op:
@@ -969,7 +976,7 @@ def run_edits(acc, sid, ops, use_git, judge_last=True, expect_key=None):
                 cls, p = index_diff_class(new.index, idx)
                 if not is_index_op:
                     raise HarnessError("a harness edit changed the index?! %s" % desc)
-                pk = "path-is-%s" % wd_kind(st.wd, st.index, op[1]) if len(op) > 1 else "all-paths"
+                pk = "path-is-%s" % wd_kind(st.wd, st.index, op[1] if len(op) > 1 else p)
                 nc = name_class(p)
                 acc.violation("%s:index-differs-from-model:%s:%s%s" % (where, cls, pk, "" if nc == "plain" else ",name=" + nc),
                               "%s: index entry %s is %r, expected %r (index now %s)" % (desc, _pn(p), idx.get(p), new.index.get(p), [_pn(x) for x in sorted(idx)]), rpl)
@@ -1048,6 +1055,7 @@ def bfs(ctx, depth, use_git):
         states += len(level)
         per_level.append(len(level))
         d += 1
+        print("C18: edit BFS level %d done after %.0f s: %d new states" % (d, ctx.elapsed(), len(level)), file=sys.stderr, flush=True)
     return {"depth_completed": d, "states": states, "states_per_level": per_level, "closed": not level}
 
 
@@ -1076,7 +1084,7 @@ SLOT_D = [
     ((b"d/e", "X"),),
     ((b"d/e", "L"), (b"d/x", "PX")),
 ]
-SLOT_B = [(), ((b"b", "X"),), ((b"b", "La"),)]
+SLOT_B = [(), ((b"b", "La"),)]
 SPECIAL = [b"b", b"a b", b"\xc3\xa9", b"\xff\xfe", b'"q"']
 SLOT_N = ["-", "X", "P", "Q", "PX", "L", "E"]
 
@@ -1126,7 +1134,8 @@ def run(ctx):
     us = universes(not q)
     extra = sorted(set(t for _, u in us[: 1 + len(SPECIAL)] for t in u) - set(trees))
     trees += extra
-    rt = [(t, m) for t in trees for m in CHECKOUTS]
+    # three-entry trees of the thorough tier: one entry point each (alternating), everything else: both
+    rt = [(t, m) for i, t in enumerate(trees) for j, m in enumerate(CHECKOUTS) if q or len(t) < 3 or (i + j) % 2 == 0]
     tasks = [("roundtrip", part, True) for part in split(ctx.order(rt), J)]
     # (2)
     pairs = set()
@@ -1142,6 +1151,7 @@ def run(ctx):
     for acc in pmap(work, tasks, jobs=ctx.jobs, ordered=True):
         ctx.acc.merge(acc)
     t12 = ctx.elapsed()
+    print("C18: round trips and switches done after %.0f s (%d + %d cases)" % (t12, len(rt), len(sw)), file=sys.stderr, flush=True)
     # (3)
     stats = bfs(ctx, 2 if q else 3, True)
     ctx.acc.note("wall_s_phases_1_2", round(t12, 1))
@@ -1158,7 +1168,7 @@ def run(ctx):
         distinct_nontrivial=len([c for c in ctx.acc.classes if not c.endswith(":ok") and c != "state:clean"]),
         exhaustive=True,
         bounds={
-            "roundtrip_trees": len(trees), "roundtrip_methods": list(CHECKOUTS),
+            "roundtrip_trees": len(trees), "roundtrip_cases": len(rt), "roundtrip_methods": list(CHECKOUTS),
             "roundtrip_max_entries": 2 if q else 3, "roundtrip_three_entry_kinds": Q3 if q else KINDS1,
             "switch_universes": [(name, len(u)) for name, u in us], "switch_ordered_pairs": len(pairs), "switch_methods": list(SWITCHES),
             "edit_depth": stats["depth_completed"], "edit_starts": sorted(STARTS), "edit_states_per_level": stats["states_per_level"],
@@ -1169,7 +1179,7 @@ def run(ctx):
             "porcelain.add(path), WorkTree.unstage, porcelain.remove(cached)} on two paths each + porcelain.add(.), states merged on (index, directory, "
             "per-entry stat-clean flag), every transition re-executed from a fresh checkout; porcelain.status (normal and all, live and fresh Repo) judged in every state "
             "against the three-dict model, the model checked against C git status/write-tree in every judged end state."
-            % (2 if q else 3, [_pn(x) for x in NAMES], KINDS1, " + all 3-entry trees over kinds %r" % Q3 if q else "", list(CHECKOUTS),
+            % (2 if q else 3, [_pn(x) for x in NAMES], KINDS1, " + all 3-entry trees over kinds %r" % Q3 if q else " (3-entry trees: the two entry points alternate)", list(CHECKOUTS),
                [(name, len(u)) for name, u in us], list(SWITCHES), stats["depth_completed"], len(STARTS))
         ),
         git_status_calls=n.get("git_status_calls", 0),
